@@ -352,8 +352,14 @@ def units_for(prop, tier):
         us.append({"runner": "vts", "prop": prop, "id": "reactivex/scheduler/virtualtimescheduler.py::VirtualTimeScheduler"})
     if "frame" in fams:
         us.append({"runner": "frame", "prop": prop, "id": f"frame-conditions/{prop}"})
-    if "subscribe" in fams:
+    if "subscribe" in fams or (prop in CALLEE_USERS and prop != "C25"):
+        # (every operator hands back Observable(subscribe): what reaches its subscribe function, and what wraps the subscriber, is the contract of
+        # Observable.subscribe and of the auto-detaching observer - implicit callees of every operator proof, re-proved inside its property)
         us.append({"runner": "subscribe_unit", "prop": prop, "id": "reactivex/observable/observable.py::Observable.subscribe"})
+        if not any(u.get("name") == "AutoDetachObserver" for u in us):
+            for c in importlib.import_module("contracts.c01").CLASSES:
+                if c.name == "AutoDetachObserver":
+                    us.append({"runner": "classref", "module": "contracts.c01", "name": c.name, "prop": prop, "id": c.uid})
     for (m, name) in USES_OPS.get(prop, ()):
         for c in getattr(importlib.import_module(m), "CONTRACTS", []):
             if c.name == name and not any(u["id"] == c.uid for u in us):
